@@ -233,6 +233,7 @@ func mkPod(set *apps.StatefulSet, p rcPod) *v1.Pod {
 }
 
 type recPodControl struct {
+	idBad  int // creates whose pod does not carry the identity / storage of its ordinal at the moment of the create call
 	tplBad int // creates whose pod template is not the one recorded by the revision its label names
 	acts   []string
 	faults map[string]bool
@@ -268,6 +269,13 @@ func (r *recPodControl) CreateStatefulPod(set *apps.StatefulSet, pod *v1.Pod) er
 	if _, snapshot := r.ids[pod]; !snapshot {
 		if len(pod.Spec.Containers) != 1 || pod.Spec.Containers[0].Image != "img-"+pod.Labels[kubeapps.StatefulSetRevisionLabel] {
 			r.tplBad++
+		}
+	}
+	// C06 at the moment of the create call: name, hostname, subdomain, pod-name label, and a volume bound to claim
+	// <template>-<set>-<ordinal> for every claim template (judged by the real predicates plus the two immutable fields)
+	if _, snapshot := r.ids[pod]; !snapshot {
+		if !sts.VerifIdentityMatches(set, pod) || !sts.VerifStorageMatches(set, pod) || pod.Spec.Hostname != pod.Name || pod.Spec.Subdomain != set.Spec.ServiceName {
+			r.idBad++
 		}
 	}
 	if k := fmt.Sprintf("0:%d", o); r.faults[k] {
@@ -321,6 +329,10 @@ func fmtStatus(s *apps.StatefulSetStatus) string {
 
 func (c *rcCase) buildSet() *apps.StatefulSet {
 	set := baseSet(rcSetName, int32(c.r), "img-"+c.upd)
+	// three volumes of the pod's own (reconcile engine only): pods built from one decoded template must not share this array
+	set.Spec.Template.Spec.Volumes = []v1.Volume{{Name: "scratch", VolumeSource: v1.VolumeSource{EmptyDir: &v1.EmptyDirVolumeSource{}}},
+		{Name: "cache", VolumeSource: v1.VolumeSource{EmptyDir: &v1.EmptyDirVolumeSource{}}},
+		{Name: "tmp", VolumeSource: v1.VolumeSource{EmptyDir: &v1.EmptyDirVolumeSource{}}}}
 	set.Generation = int64(c.gen)
 	set.Spec.PodManagementPolicy = policyOf(c.pol)
 	set.Spec.UpdateStrategy = strategyOf(c.strat, c.ru)
@@ -389,7 +401,7 @@ func runReconcile(line string) string {
 	if out == "panic" {
 		stS = "-"
 	}
-	res := fmt.Sprintf("acts=%s status=%s written=%s out=%s tplbad=%d", strings.Join(pc.acts, ","), stS, fmtStatus(su.written), out, pc.tplBad)
+	res := fmt.Sprintf("acts=%s status=%s written=%s out=%s tplbad=%d idbad=%d", strings.Join(pc.acts, ","), stS, fmtStatus(su.written), out, pc.tplBad, pc.idBad)
 	if site != "" {
 		res += " site=" + strings.ReplaceAll(site, " ", "_")
 	}
